@@ -5,7 +5,6 @@
   slate, is distributed as a draw from that slate's own (renormalised) interval.
 -/
 import VK.Props.C16
-import VK.Props.Kernels
 
 namespace VK
 open Gen Dist
